@@ -2,7 +2,7 @@
    showing that the hypotheses of the KEM theorems are satisfiable (an accepted ciphertext exists) and that a
    single modified coefficient leads to rejection in the model.  Compiled once (vm_compute, about a minute). *)
 From Coq Require Import ZArith Bool List.
-From TF Require Import BFieldGen LatticeGen Lattice LatticeSpec.
+From TF Require Import BFieldGen LatticeGen Lattice LatticeSpec LatticeKem LatticeKemNoise.
 Import ListNotations.
 Open Scope Z_scope.
 
@@ -36,4 +36,18 @@ Definition toy_kem_check : bool :=
   | None => false
   end.
 Lemma toy_kem_check_true : toy_kem_check = true.
+Proof. vm_compute. reflexivity. Qed.
+
+(* the noise term b.c - d.a of the same run satisfies the lane-noise bound of dec_enc_noise_partial *)
+Definition toy_noise_check : bool :=
+  match keygen toy_shake toy_kg_seed with
+  | Some (sk, _) =>
+      match derive_secret_vectors toy_shake (fst sk),
+            derive_secret_vectors toy_shake (toy_shake toy_enc_seed ENC_OUTPUT_LENGTH) with
+      | Some (a, c), Some (b, d) => forallb (lane_noise_okb NOISE_BOUND) (kem_noise a b c d)
+      | _, _ => false
+      end
+  | None => false
+  end.
+Lemma toy_noise_check_true : toy_noise_check = true.
 Proof. vm_compute. reflexivity. Qed.
